@@ -15,6 +15,14 @@ func init() {
 	userAgent = fmt.Sprintf("nsq_to_http v%s", version.Binary)
 }
 
+// noRedirect makes the client hand a 3xx answer back to the publisher instead of following it.
+// net/http would repeat a POST answered with 301/302/303 as a GET without the body (and a GET
+// without the query that carries the message): the redirect target's 200 would then finish a
+// message that no destination received. A 3xx is not a success for either publisher.
+func noRedirect(req *http.Request, via []*http.Request) error {
+	return http.ErrUseLastResponse
+}
+
 func HTTPGet(endpoint string) (*http.Response, error) {
 	req, err := http.NewRequest("GET", endpoint, nil)
 	if err != nil {
